@@ -16,7 +16,7 @@ RULE = ('triples (u,v,w) of linear units of one dimension (every table symbol wi
 SHARDS = {'quick': 16, 'thorough': 16}
 MIN_NONTRIVIAL = {'quick': 6000, 'thorough': 150000}
 REQUIRED_CLASSES = ['atom-pair', 'compound-pair', 'named-vs-expansion', 'system-symbol', 'array', 'scalar', 'zero', 'negative',
-                    'extreme', 'reciprocal', 'bare-number-to-rad', 'refusal', 'refusal-with-quantity-target', 'target-quantity', 'roundtrip', 'via-intermediate', 'same-object-history']
+                    'extreme', 'reciprocal', 'bare-number-to-rad', 'merged-fractional-exponents', 'square-of-half-integer-dimension-unit', 'refusal', 'refusal-with-quantity-target', 'target-quantity', 'roundtrip', 'via-intermediate', 'same-object-history']
 REQUIRED_MONITORS = ['value_compares', 'roundtrip_compares', 'path_compares', 'refusal_fingerprint_compares', 'history_step_compares']
 ASSUMPTIONS = ['units_ref factors come from the published tables', 'rtol 1e-9',
                'temperature (Cel, degF) and logarithmic symbols are excluded here (C05)',
@@ -44,7 +44,9 @@ def setup():
     named = [(p, u) for (p, u) in atoms if not u.startswith('#') and u not in BASE
              and all(x.denominator == 1 for x in T.atom(p, u)[1]) and any(T.atom(p, u)[1])]
     dimkeys = [d for d in bydim if len(bydim[d]) >= 2]
-    return dict(T=T, Q=Quantity, BU=BaseUnits, np=np, atoms=atoms, bydim=bydim, dimkeys=dimkeys, named=named, hyg=Hygiene())
+    # table units whose dimension vector has half-integer entries (Gaussian units: statC, statA, statV, Gs, ...)
+    fracdim = [(p, u) for (p, u) in atoms if not u.startswith('#') and any(x.denominator != 1 for x in T.atom(p, u)[1])]
+    return dict(T=T, Q=Quantity, BU=BaseUnits, np=np, atoms=atoms, bydim=bydim, dimkeys=dimkeys, named=named, fracdim=fracdim, hyg=Hygiene())
 
 
 def pick_x(rng):
@@ -147,6 +149,29 @@ def cases(rng, tier, shard, nshards, ctx):
             if rng.random() < 0.5:
                 u, v = v, u
             yield dict(t='conv', kind='named-vs-expansion', u=u, v=v, w=None, x=x, xc=xc, arr=arr)
+        elif r < 0.68:
+            # fractional exponents that MERGE into an integer one (km1:2*km1:2, m3:2/m1:2, three cube roots): the exponent the
+            # library holds afterwards is an unreduced fraction (2/2, 3/3); and squares of units with half-integer dimensions
+            if ctx['fracdim'] and rng.random() < 0.3:
+                p, sy = rng.choice(ctx['fracdim'])
+                dims = ctx['T'].atom(p, sy)[1]
+                u = ['a', p, sy, 2, 1]
+                v = expansion(rng, ctx, tuple(dd * 2 for dd in dims))
+                yield dict(t='conv', kind='square-of-half-integer-dimension-unit', u=u, v=v, w=None, x=x, xc=xc, arr=arr)
+            else:
+                d = rng.choice([k for k in ctx['dimkeys'] if any(k)])
+                a = rng.choice(ctx['bydim'][d]); b = rng.choice(ctx['bydim'][d])
+                form = rng.choice(['halves', 'thirds', 'three-halves-over-half', 'quarters'])
+                at = lambda n_, d_: ['a', a[0], a[1], n_, d_]
+                if form == 'halves':
+                    u = ['*', at(1, 2), at(1, 2)]
+                elif form == 'thirds':
+                    u = ['*', ['*', at(1, 3), at(1, 3)], at(1, 3)]
+                elif form == 'quarters':
+                    u = ['*', ['*', at(1, 4), at(1, 4)], at(1, 2)]
+                else:
+                    u = ['/', at(3, 2), at(1, 2)]
+                yield dict(t='conv', kind='merged-fractional-exponents', u=u, v=['a', b[0], b[1], 1, 1], w=None, x=x, xc=xc, arr=arr)
         elif r < 0.72:
             d = rng.choice([k for k in ctx['dimkeys'] if any(k)])
             a = rng.choice(ctx['bydim'][d]); b = rng.choice(ctx['bydim'][d])
@@ -273,30 +298,39 @@ def _run(case, ctx):
         classes.append(case['kind'])
         if '#' in ut or '#' in vt:
             classes.append('system-symbol')
-        q0 = mk()
-        fp0 = fingerprint(q0)
-        cmp(getv(q0.value(vt)), exp, 'value-in-other-unit', 'value_compares')
-        if fingerprint(q0) != fp0:
-            devs.append(dev('value-query-changed-quantity', dict(u=ut, v=vt)))
-        q = mk()
-        r = q.to(vt)
-        if r is not q:
-            devs.append(dev('to-does-not-return-self', dict(u=ut, v=vt)))
-        cmp(getv(q), exp, 'converted-value', 'value_compares')
-        if U.unitmap_from_real(q.baseunits) != U.nonzero(mv[3]):
-            devs.append(dev('converted-units', dict(u=ut, v=vt, units=q.units(), expected={''.join(k): str(v) for k, v in U.nonzero(mv[3]).items()})))
-        # round trip (back into the unit part of u; numeric factor of u stays in the number)
-        classes.append('roundtrip')
-        ub = U.render(strip_num(case['u']))
-        q.to(ub)
-        cmp(getv(q), [z * mu[1] for z in xs], 'roundtrip', 'roundtrip_compares')
-        if wt:
-            mid = [b / mw[0] for b in base]
-            if U.finite_ok(*mid) and not any(m == 0 and z != 0 for m, z in zip(mid, xs)):
-                classes.append('via-intermediate')
-                q2 = mk()
-                q2.to(wt).to(vt)
-                cmp(getv(q2), exp, 'via-intermediate-unit', 'path_compares')
+        step = 'value(v)'
+        try:
+            q0 = mk()
+            fp0 = fingerprint(q0)
+            cmp(getv(q0.value(vt)), exp, 'value-in-other-unit', 'value_compares')
+            if fingerprint(q0) != fp0:
+                devs.append(dev('value-query-changed-quantity', dict(u=ut, v=vt)))
+            step = 'to(v)'
+            q = mk()
+            r = q.to(vt)
+            if r is not q:
+                devs.append(dev('to-does-not-return-self', dict(u=ut, v=vt)))
+            cmp(getv(q), exp, 'converted-value', 'value_compares')
+            if U.unitmap_from_real(q.baseunits) != U.nonzero(mv[3]):
+                devs.append(dev('converted-units', dict(u=ut, v=vt, units=q.units(), expected={''.join(k): str(v) for k, v in U.nonzero(mv[3]).items()})))
+            # round trip (back into the unit part of u; numeric factor of u stays in the number)
+            classes.append('roundtrip')
+            step = 'to(v) then back to(u)'
+            ub = U.render(strip_num(case['u']))
+            q.to(ub)
+            cmp(getv(q), [z * mu[1] for z in xs], 'roundtrip', 'roundtrip_compares')
+            if wt:
+                mid = [b / mw[0] for b in base]
+                if U.finite_ok(*mid) and not any(m == 0 and z != 0 for m, z in zip(mid, xs)):
+                    classes.append('via-intermediate')
+                    step = 'to(w) then to(v)'
+                    q2 = mk()
+                    q2.to(wt).to(vt)
+                    cmp(getv(q2), exp, 'via-intermediate-unit', 'path_compares')
+        except Exception as e:
+            # units of one dimension: a conversion that raises is a refusal the property does not allow
+            mon['value_compares'] = mon.get('value_compares', 0) + 1
+            devs.append(dev('conversion-between-units-of-one-dimension-raises', dict(u=ut, v=vt, w=wt, step=step, exc='%s: %s' % (type(e).__name__, str(e)[:160]))))
         nontrivial = ut != vt and not close(Fu, Fv, 1e-12)
         return outcome(classes=classes, nontrivial=nontrivial, fp='conv %s|%s|%s|%s|%s' % (ut, vt, wt, case['xc'], arr), dev=devs, monitors=mon,
                        sample=dict(case='Quantity(%r,%r).to(%r)' % (xs, ut, vt), expected=exp, factor_u=Fu, factor_v=Fv))
